@@ -40,6 +40,7 @@ TraceCommitEnd   == IsEv("CommitEnd") /\ CommitEnd(E.t, E.ok)
 TraceRollback    == IsEv("Rollback") /\ Rollback(E.t)
 TraceScribble    == IsEv("Scribble") /\ Scribble(E.t)
 TraceCrash       == IsEv("Crash") /\ Crash(E.t)
+TraceAudit       == IsEv("Audit") /\ Audit(E.n, E.count, E.k)
 TraceLogs        == IsEv("Logs") /\ Logs(E.n)
 TraceRemoveStore == IsEv("RemoveStore") /\ RemoveStore(E.s)
 TraceObserve     == IsEv("Observe") /\ (Observe(E.s, E.exists, E.items, E.count, E.opts)
@@ -49,7 +50,7 @@ TraceLin         == \E t \in DOMAIN tx : Lin(t) /\ UNCHANGED l
 
 TraceNext == \/ TraceReset \/ TraceBegin \/ TraceArm \/ TraceNewStore \/ TraceOpenStore \/ TraceOp
              \/ TraceCommitStart \/ TraceCommitEnd \/ TraceRollback \/ TraceRemoveStore \/ TraceObserve
-             \/ TraceLin \/ TraceFailedCall \/ TraceNewStoreBegin \/ TraceCrash \/ TraceLogs \/ TraceScribble
+             \/ TraceLin \/ TraceFailedCall \/ TraceNewStoreBegin \/ TraceCrash \/ TraceLogs \/ TraceScribble \/ TraceAudit
 
 TraceSpec == TraceInit /\ [][TraceNext]_tvars
 
